@@ -200,7 +200,7 @@ func executeRes(t *testing.T, prop string, pl *Plan) *core.Result {
 				res.Fail(prop, cls, normMsg(pr), "Resolve(%q) sent a query (%d octets, qname %q type %d) that the independent codec rejects: %s", inText, e.Len, e.QName, e.QType, pr)
 			}
 			switch e.Outcome {
-			case "transport", "nocl":
+			case "transport", "nocl", simdoh.FaultOtherQ:
 				res.Fault(e.Outcome)
 			default:
 				if strings.HasPrefix(e.Outcome, "status:") {
